@@ -1,6 +1,565 @@
-(* C06 — the shared manager model with the C06 oracle. *)
-From Coq Require Import List NArith.
-From V.Mgr Require Import Model Glue.
-Definition run_case := V.Mgr.Glue.run_case.
-Definition prop_ok := prop_ok_C06.
+(* C06 — wire formats and oracles. Six kinds of cases, told apart by the first number:
+
+     (no tag)  a history of the shared manager model (coq/Mgr/Glue.v), C06 oracle;
+     9600      the ConnectionLimits object alone (coq/Mgr/Limits.v): a configuration built by a
+               sequence of builder calls, then any sequence of method calls;
+     9601      PeerState alone (coq/Mgr/PeerTable.v): any start state, any sequence of method calls;
+     9602      a history of the manager model, with the log of the calls the manager makes on its
+               ConnectionLimits after every step (Limits.lim_ops / lim_log) and environment
+               choices the manager must ignore (results of reject / accept_pending /
+               reject_pending);
+     9603      real loopback sockets: what the real TcpTransport / WebSocketTransport do with a
+               connection the owner accepts or rejects, seen from the remote end;
+     9604      complete Litep2p nodes over real sockets, configured and observed through the public
+               API; expected answers computed by the manager model.
+
+   prop_ok judges what the property text demands on the trace alone; the agreement of trace and
+   model (including the call log) is the correspondence check. Definitions only. *)
+From Coq Require Import List NArith Bool.
+From V.common Require Import Wire.
+From V.Mgr Require Import DialShape Model Glue Limits PeerTable.
+Import ListNotations.
+Open Scope N_scope.
+
+Definition TAG_LIMITS : N := 9600.
+Definition TAG_PEER : N := 9601.
+Definition TAG_WRAPPED : N := 9602.
+Definition TAG_SOCK : N := 9603.
+Definition TAG_E2E : N := 9604.
+
+(* ======================= 9600: the ConnectionLimits object ======================= *)
+Definition p_cfg_call : parser cfg_call :=
+  let* side := pN in let* v := pN in
+  if side =? 0 then pret (SetIn (dec_opt v)) else if side =? 1 then pret (SetOut (dec_opt v)) else pfail.
+
+Definition p_lop : parser lop :=
+  let* tag := pN in
+  match tag with
+  | 0 => pret LDial
+  | 1 => pret LIncoming
+  | 2 => let* b := pBool in pret (LCan b)
+  | 3 => let* c := pN in let* b := pBool in pret (LAccept c b)
+  | 4 => let* c := pN in pret (LClosed c)
+  | _ => pfail
+  end.
+
+Definition decode_limits (l : list N) : option (list cfg_call * list lop) :=
+  pall (let* ks := plist p_cfg_call in let* ops := plist p_lop in pret (ks, ops)) l.
+
+Definition enc_lres (r : lres) : list N :=
+  match r with
+  | LOk => [0; 0] | LCap None => [1; 0] | LCap (Some k) => [2; k] | LErrIn => [3; 0] | LErrOut => [4; 0]
+  end.
+Definition enc_lop (o : lop) : list N :=
+  match o with
+  | LDial => [0; 0; 0] | LIncoming => [1; 0; 0] | LCan b => [2; Wire.b2n b; 0]
+  | LAccept c b => [3; c; Wire.b2n b] | LClosed c => [4; c; 0]
+  end.
+Definition enc_set (s : list N) : list N := enc_list (fun k => [k]) (sort_by (fun k => k) s).
+Definition enc_lim (l : lim) : list N := enc_set (lin l) ++ enc_set (lout l).
+
+Fixpoint limits_trace (l : lim) (ops : list lop) : list N :=
+  match ops with
+  | [] => []
+  | o :: t => let '(l', r) := lim_step l o in enc_lres r ++ enc_lim l' ++ limits_trace l' t
+  end.
+
+Definition run_limits (body : list N) : list N :=
+  match decode_limits body with
+  | Some (ks, ops) =>
+      let c := cfg_build ks in
+      1 :: enc_opt (fst c) :: enc_opt (snd c) :: limits_trace (lim_new c) ops
+  | None => [0]
+  end.
+
+(* oracle: the observed object (configuration read back, result and both sets after every call) *)
+Record lobs := mkLobs { lo_res : N * N; lo_in : list N; lo_out : list N }.
+Definition p_lobs : parser lobs :=
+  let* a := pN in let* b := pN in let* i := plist pN in let* o := plist pN in pret (mkLobs (a, b) i o).
+
+Definition sub_of (a b : list N) : bool := forallb (fun x => mem x b) a.
+Definition same_set (a b : list N) : bool := sub_of a b && sub_of b a.
+Definition len (l : list N) : N := N.of_nat (length l).
+
+(* one call judged on what was observed before and after it; `g`: the call sequence so far follows
+   the calling discipline (an accept right after a successful check of the same direction) *)
+Definition lstep_ok (mi mo : option N) (pi po : list N) (prev_can : option bool) (o : lop) (x : lobs) : bool :=
+  let i := lo_in x in let u := lo_out x in
+  nodupb i && nodupb u &&
+  (* an unlimited direction is never counted *)
+  (match mi with None => is_nil i | Some _ => true end) &&
+  (match mo with None => is_nil u | Some _ => true end) &&
+  match o with
+  | LDial =>
+      same_set i pi && same_set u po &&
+      match mo, lo_res x with
+      | None, (1, _) => true
+      | Some mx, (2, k) => (1 <=? k) && (k + len po =? mx)
+      | Some mx, (4, _) => mx <=? len po
+      | _, _ => false
+      end
+  | LIncoming | LCan true =>
+      same_set i pi && same_set u po &&
+      match mi, lo_res x with
+      | None, (0, _) => true
+      | Some mx, (0, _) => len pi <? mx
+      | Some mx, (3, _) => mx <=? len pi
+      | _, _ => false
+      end
+  | LCan false =>
+      same_set i pi && same_set u po &&
+      match mo, lo_res x with
+      | None, (0, _) => true
+      | Some mx, (0, _) => len po <? mx
+      | Some mx, (4, _) => mx <=? len po
+      | _, _ => false
+      end
+  | LAccept c lst =>
+      (* only the set of its direction may change, and only by c *)
+      (if lst then same_set u po && sub_of pi i && sub_of i (c :: pi)
+       else same_set i pi && sub_of po u && sub_of u (c :: po)) &&
+      (* after a successful check the maximum holds and the connection is counted *)
+      match prev_can with
+      | Some d =>
+          if Bool.eqb d lst then
+            (if lst then match mi with Some mx => mem c i && (len i <=? mx) | None => true end
+             else match mo with Some mx => mem c u && (len u <=? mx) | None => true end)
+          else true
+      | None => true
+      end
+  | LClosed c =>
+      (* exactly c leaves, from both sets *)
+      same_set i (set_remove c pi) && same_set u (set_remove c po)
+  end.
+
+Fixpoint limits_ok (mi mo : option N) (pi po : list N) (prev_can : option bool) (ops : list lop) (xs : list lobs) : bool :=
+  match ops, xs with
+  | [], [] => true
+  | o :: ops', x :: xs' =>
+      lstep_ok mi mo pi po prev_can o x &&
+      limits_ok mi mo (lo_in x) (lo_out x)
+                (match o, lo_res x with LCan d, (0, _) => Some d | _, _ => None end) ops' xs'
+  | _, _ => false
+  end.
+
+Definition prop_ok_limits (body trace : list N) : bool :=
+  match decode_limits body with
+  | Some (ks, ops) =>
+      match trace with
+      | 1 :: ci :: co :: rest =>
+          (* the builder: a side holds the argument of the last call for it *)
+          (ci =? enc_opt (fst (cfg_build ks))) && (co =? enc_opt (snd (cfg_build ks))) &&
+          match pall (prep (length ops) p_lobs) rest with
+          | Some xs => limits_ok (dec_opt ci) (dec_opt co) [] [] None ops xs
+          | None => false
+          end
+      | _ => false
+      end
+  | None => match trace with [0] => true | _ => false end
+  end.
+
+(* ======================= 9601: PeerState ======================= *)
+Definition p_addr : parser addr := let* b := pN in let* s := pN in pret (b, dec_opt s).
+Definition p_rrec : parser rrec := let* c := pN in let* a := p_addr in pret (c, a).
+
+Definition p_rstate : parser rstate :=
+  let* tag := pN in
+  match tag with
+  | 0 => pret (RDisconnected None)
+  | 1 => let* r := p_rrec in pret (RDisconnected (Some r))
+  | 2 => let* r := p_rrec in pret (RDialing r)
+  | 3 => let* c := pN in let* k := pN in let* a := plist p_addr in
+         if k <? 4 then pret (ROpening a c (inst_of_mask k)) else pfail
+  | 4 => let* r := p_rrec in pret (RConnected r None)
+  | 5 => let* r := p_rrec in let* s := p_rrec in pret (RConnected r (Some (RSecEst s)))
+  | 6 => let* r := p_rrec in let* d := p_rrec in pret (RConnected r (Some (RSecDial d)))
+  | _ => pfail
+  end.
+
+(* records handed in by the manager go through ConnectionRecord::new / from_endpoint for peer p *)
+Definition p_pop (p : peer) : parser pop :=
+  let* tag := pN in
+  match tag with
+  | 0 => pret PCanDial
+  | 1 => let* c := pN in let* a := p_addr in pret (PDialSingle (rec_new p a c))
+  | 2 => let* c := pN in let* k := pN in let* a := plist p_addr in
+         if k <? 4 then pret (PDialAddrs c a (inst_of_mask k)) else pfail
+  | 3 => let* c := pN in pret (PDialFailure c)
+  | 4 => let* c := pN in let* a := p_addr in let* via := pN in pret (PEstablished (rec_new p a c))
+  | 5 => let* c := pN in pret (PClosed c)
+  | 6 => let* t := pN in if t <? 2 then pret (POpenFailure t) else pfail
+  | 7 => let* c := pN in let* a := p_addr in pret (POpened (rec_new p a c))
+  | _ => pfail
+  end.
+
+Definition decode_peer (l : list N) : option (peer * rstate * list pop) :=
+  pall (let* p := pN in let* s := p_rstate in let* ops := plist (p_pop p) in pret (p, s, ops)) l.
+
+Definition enc_addr (a : addr) : list N := [fst a; enc_opt (snd a)].
+Definition enc_rrec (r : rrec) : list N := fst r :: enc_addr (snd r).
+Definition addr_key (a : addr) : N := fst a * 1000 + enc_opt (snd a).
+Fixpoint dedup_adj (l : list addr) : list addr :=
+  match l with
+  | a :: ((b :: _) as t) => if addr_key a =? addr_key b then dedup_adj t else a :: dedup_adj t
+  | _ => l
+  end.
+Definition enc_rstate (s : rstate) : list N :=
+  match s with
+  | RDisconnected None => [0]
+  | RDisconnected (Some r) => 1 :: enc_rrec r
+  | RDialing r => 2 :: enc_rrec r
+  | ROpening a c ts => [3; c; tr_mask ts] ++ enc_list enc_addr (dedup_adj (sort_by addr_key a))
+  | RConnected r None => 4 :: enc_rrec r
+  | RConnected r (Some (RSecEst s2)) => 5 :: enc_rrec r ++ enc_rrec s2
+  | RConnected r (Some (RSecDial d)) => 6 :: enc_rrec r ++ enc_rrec d
+  end.
+
+Fixpoint peer_trace (s : rstate) (ops : list pop) : list N :=
+  match ops with
+  | [] => []
+  | o :: t => let '(s', r) := pstep s o in r :: enc_rstate s' ++ peer_trace s' t
+  end.
+
+Definition run_peer (body : list N) : list N :=
+  match decode_peer body with
+  | Some (p, s, ops) => 1 :: peer_trace s ops
+  | None => [0]
+  end.
+
+(* oracle on the observed states: the slots (established records, primary first) *)
+Fixpoint rrec_list_eqb (a b : list rrec) : bool :=
+  match a, b with
+  | [], [] => true
+  | x :: a', y :: b' => nlist_eqb (enc_rrec x) (enc_rrec y) && rrec_list_eqb a' b'
+  | _, _ => false
+  end.
+
+Definition pstep_ok (prev : rstate) (o : pop) (res : N) (cur : rstate) : bool :=
+  (* never more than two slots (by construction of the state) and: *)
+  match o with
+  | PEstablished n =>
+      if res =? 1 then
+        (* accepted: the record is stored in the first free slot, the others are untouched *)
+        rrec_list_eqb (slots cur) (slots prev ++ [n])
+      else
+        (* refused: only when both slots are taken, or one is taken and the other is reserved for a
+           dial in flight with another id; nothing changes *)
+        nlist_eqb (enc_rstate cur) (enc_rstate prev) &&
+        ((N.of_nat (length (slots prev)) =? 2) ||
+         ((N.of_nat (length (slots prev)) =? 1) &&
+          match dial_of prev with Some d => negb (fst d =? fst n) | None => false end))
+  | PClosed c =>
+      rrec_list_eqb (slots cur) (remove_first_rec c (slots prev)) &&
+      (* ConnectionClosed is reported exactly when the last connection goes *)
+      Bool.eqb (res =? 1)
+               (match slots prev with [r] => fst r =? c | _ => false end)
+  | _ => rrec_list_eqb (slots cur) (slots prev)
+  end.
+
+Fixpoint p_ptrace (n : nat) : parser (list (N * rstate)) :=
+  match n with
+  | O => pret []
+  | S k => let* r := pN in let* s := p_rstate in let* t := p_ptrace k in pret ((r, s) :: t)
+  end.
+
+Fixpoint peer_ok (prev : rstate) (ops : list pop) (xs : list (N * rstate)) : bool :=
+  match ops, xs with
+  | [], [] => true
+  | o :: ops', (r, s) :: xs' => pstep_ok prev o r s && peer_ok s ops' xs'
+  | _, _ => false
+  end.
+
+Definition prop_ok_peer (body trace : list N) : bool :=
+  match decode_peer body with
+  | Some (p, s, ops) =>
+      match trace with
+      | 1 :: rest =>
+          match pall (p_ptrace (length ops)) rest with
+          | Some xs => peer_ok s ops xs
+          | None => false
+          end
+      | _ => false
+      end
+  | None => match trace with [0] => true | _ => false end
+  end.
+
+(* ======================= 9602: manager history with the limits call log ======================= *)
+Definition enc_lentry (x : lop * lres) : list N := enc_lop (fst x) ++ enc_lres (snd x).
+
+Fixpoint run_trace6 (L : limits) (m : mgr) (es : list ev) : list N :=
+  match es with
+  | [] => []
+  | e :: t =>
+      let '(m1, os) := step L m e in
+      enc_outs os ++ dump m1 ++ enc_list enc_lentry (lim_log (lim_of L m) (lim_ops L m e)) ++
+      (if stuck_of os =? 0 then run_trace6 L m1 t else [])
+  end.
+
+(* body = environment mask :: manager case *)
+Definition run_wrapped (body : list N) : list N :=
+  match body with
+  | _ :: mcase =>
+      match decode_case mcase with
+      | Some (L, es) => 1 :: run_trace6 L init es
+      | None => [0]
+      end
+  | [] => [0]
+  end.
+
+Definition p_lentry : parser (list N) :=
+  let* a := pN in let* b := pN in let* c := pN in let* d := pN in let* e := pN in pret [a; b; c; d; e].
+
+Fixpoint p_trace6 (n : nat) : parser (list obs) :=
+  match n with
+  | O => pret []
+  | S k => fun l => match l with
+                    | [] => Some ([], [])
+                    | _ => (let* o := p_obs in let* lg := plist p_lentry in let* t := p_trace6 k in pret (o :: t)) l
+                    end
+  end.
+
+(* every established connection delivered by an installed transport is answered by exactly one of
+   accept(c) / reject(c), every pending inbound socket by exactly one of accept_pending(c) /
+   reject_pending(c) (a step that panicked is not judged) *)
+Fixpoint answered_ok (L : limits) (es : list ev) (tr : list obs) : bool :=
+  match es, tr with
+  | e :: es', o :: tr' =>
+      (if o_stuck o =? 0 then
+         match e with
+         | TrEstablished _ c t _ _ =>
+             if installed L t then xorb (has_call 5 c o) (has_call 6 c o)
+             else negb (has_call 5 c o) && negb (has_call 6 c o)
+         | TrPendingInbound c t =>
+             if installed L t then xorb (has_call 7 c o) (has_call 8 c o) else true
+         | _ => true
+         end
+       else true) && answered_ok L es' tr'
+  | _, _ => true
+  end.
+
+Definition prop_ok_wrapped (body trace : list N) : bool :=
+  match body with
+  | _ :: mcase =>
+      match decode_case mcase with
+      | Some (L, es) =>
+          match trace with
+          | 1 :: rest =>
+              match pall (p_trace6 (length es)) rest with
+              | Some tr => c06_ok L None es tr [] [] [] && answered_ok L es tr
+              | None => false
+              end
+          | _ => false
+          end
+      | None => match trace with [0] => true | _ => false end
+      end
+  | [] => match trace with [0] => true | _ => false end
+  end.
+
+(* ======================= 9603: real sockets: what accept / reject do to a connection ==========
+   case body: transport (0 tcp, 1 websocket, 2 quic), then per connection (kind, d1, d2):
+     kind 0 inbound (remote node dials):  d1: 1 accept_pending / 0 reject_pending; d2: 1 accept / 0 reject
+     kind 1 outbound (local dial):        d2 likewise
+     kind 2 bare inbound socket:          reject_pending
+   trace per connection: pending seen, result of the first call (d1 call; dial for kind 1),
+   established seen, result of the d2 call, `again` (number of Ok among a further reject_pending(c)
+   and reject(c)), remote end saw the connection go away, events emitted for c after the decision *)
+Definition sock_accepted (kind d1 d2 : N) : bool :=
+  match kind with
+  | 0 => negb (d1 =? 0) && negb (d2 =? 0)
+  | 1 => negb (d2 =? 0)
+  | _ => false
+  end.
+Definition sock_expect (kind d1 d2 : N) : list N :=
+  let pend := if kind =? 1 then 0 else 1 in
+  let est := if kind =? 1 then 1 else if kind =? 0 then (if d1 =? 0 then 0 else 1) else 0 in
+  [pend; 1; est; est; 0; if sock_accepted kind d1 d2 then 0 else 1; 0].
+
+Definition p_sock_conn : parser (N * N * N) :=
+  let* k := pN in let* a := pN in let* b := pN in
+  if (k <? 3) && (a <? 2) && (b <? 2) && negb ((k =? 2) && negb (a =? 0)) then pret (k, a, b) else pfail.
+(* transport 2 = QUIC (harness built with the quic feature): no bare sockets there *)
+Definition decode_sock (l : list N) : option (N * list (N * N * N)) :=
+  pall (let* tr := pN in let* cs := plist p_sock_conn in
+        if (tr <? 2) || ((tr =? 2) && forallb (fun x : N * N * N => negb (fst (fst x) =? 2)) cs)
+        then pret (tr, cs) else pfail) l.
+
+Definition run_sock (body : list N) : list N :=
+  match decode_sock body with
+  | Some (_, cs) => 1 :: flat_map (fun x : N * N * N => sock_expect (fst (fst x)) (snd (fst x)) (snd x)) cs ++ [0]
+  | None => [0]
+  end.
+
+Definition p_sock_obs : parser (list N) :=
+  let* a := pN in let* b := pN in let* c := pN in let* d := pN in let* e := pN in let* f := pN in let* g := pN in
+  pret [a; b; c; d; e; f; g].
+
+(* a rejected connection is gone for the remote end, its entry is consumed, and nothing more is
+   reported about it; an accepted one is not disturbed *)
+Definition sock_conn_ok (x : N * N * N) (o : list N) : bool :=
+  let '(k, d1, d2) := x in
+  match o with
+  | [pend; r1; est; r2; again; closed; later] =>
+      (* judged when the environment delivered the events the script waits for *)
+      if nlist_eqb [pend; r1; est; r2] (firstn 4 (sock_expect k d1 d2)) then
+        (later =? 0) && (again =? 0) &&
+        (if sock_accepted k d1 d2 then closed =? 0 else closed =? 1)
+      else true
+  | _ => false
+  end.
+
+Fixpoint sock_ok (cs : list (N * N * N)) (os : list (list N)) : bool :=
+  match cs, os with
+  | [], [] => true
+  | x :: cs', o :: os' => sock_conn_ok x o && sock_ok cs' os'
+  | _, _ => false
+  end.
+
+Definition prop_ok_sock (body trace : list N) : bool :=
+  match decode_sock body with
+  | Some (_, cs) =>
+      match trace with
+      | 1 :: rest =>
+          (* the last number: accepted connections that were seen closing by the end of the case *)
+          match pall (let* os := prep (length cs) p_sock_obs in let* disturbed := pN in pret (os, disturbed)) rest with
+          | Some (os, disturbed) => sock_ok cs os && (disturbed =? 0)
+          | None => false
+          end
+      | _ => false
+      end
+  | None => match trace with [0] => true | _ => false end
+  end.
+
+(* ======================= 9604: complete nodes over real sockets =======================
+   case body: max_in, max_out (enc_opt), then operations (kind, p) on remote nodes p = 1..4:
+     0 p  remote p dials the node   -> [node reports ConnectionEstablished(p); what the remote saw:
+                                        1 open, 2 established then closed, 3 its dial failed]
+     1 p  the node dials remote p   -> [result of Litep2p::dial_address (0 Ok, 1 ConnectionLimit, ..);
+                                        node reports ConnectionEstablished(p)]
+     2 p  remote p is killed        -> [node reports ConnectionClosed(p); 0]
+   The expected answers are those of the MANAGER MODEL on the translation of each operation into
+   manager events (only TCP installed; the remote's address is the canonical one). *)
+Definition e2e_L (mi mo : N) : limits := mkLimits (dec_opt mi) (dec_opt mo) [TCP].
+
+Definition has_out (f : out -> bool) (os : list out) : bool := existsb f os.
+Definition is_reject_pending (o : out) : bool := match o with CallRejectPending _ _ => true | _ => false end.
+Definition is_reject (o : out) : bool := match o with CallReject _ _ => true | _ => false end.
+Definition is_established (o : out) : bool := match o with EvEstablished _ _ => true | _ => false end.
+Definition is_closed (o : out) : bool := match o with EvClosed _ _ => true | _ => false end.
+
+(* one operation on the model: new manager state, the connections the node has (peer -> id), answer *)
+Definition e2e_op (L : limits) (m : mgr) (conns : list (N * N)) (kind p : N) : mgr * list (N * N) * list N :=
+  match kind with
+  | 0 =>
+      let c := next_conn m in
+      let '(m1, _) := step L m AllocConn in
+      let '(m2, o2) := step L m1 (TrPendingInbound c TCP) in
+      if has_out is_reject_pending o2 then (m2, conns, [0; 3])
+      else
+        let '(m3, o3) := step L m2 (TrEstablished p c TCP true false) in
+        if has_out is_reject o3 then (m3, conns, [0; 2])
+        else
+          let '(m4, o4) := step L m3 (AcceptDone c true) in
+          if has_out is_established o4 then (m4, insert_key p c conns, [1; 1]) else (m4, conns, [0; 1])
+  | 1 =>
+      let c := next_conn m in
+      let '(m1, o1) := step L m (CmdDialAddr p TCP false) in
+      let code := ret_of o1 - 1 in
+      if code =? RET_OK then
+        let '(m2, o2) := step L m1 (TrEstablished p c TCP false false) in
+        if has_out is_reject o2 then (m2, conns, [code; 0])
+        else
+          let '(m3, o3) := step L m2 (AcceptDone c true) in
+          if has_out is_established o3 then (m3, insert_key p c conns, [code; 1]) else (m3, conns, [code; 0])
+      else (m1, conns, [code; 0])
+  | _ =>
+      match lookup p conns with
+      | Some c =>
+          let '(m1, o1) := step L m (Closed p c) in
+          (m1, remove_key p conns, [if has_out is_closed o1 then 1 else 0; 0])
+      | None => (m, conns, [0; 0])
+      end
+  end.
+
+Fixpoint e2e_trace (L : limits) (m : mgr) (conns : list (N * N)) (ops : list (N * N)) : list N :=
+  match ops with
+  | [] => []
+  | (k, p) :: t => let '(m', conns', ans) := e2e_op L m conns k p in ans ++ e2e_trace L m' conns' t
+  end.
+
+Definition p_e2e_op : parser (N * N) :=
+  let* k := pN in let* p := pN in if (k <? 3) && (1 <=? p) && (p <=? 4) then pret (k, p) else pfail.
+Definition decode_e2e (l : list N) : option (N * N * list (N * N)) :=
+  pall (let* mi := pN in let* mo := pN in let* ops := plist p_e2e_op in pret (mi, mo, ops)) l.
+
+Definition run_e2e (body : list N) : list N :=
+  match decode_e2e body with
+  | Some (mi, mo, ops) => 1 :: e2e_trace (e2e_L mi mo) init [] ops
+  | None => [0]
+  end.
+
+(* the property judged on what the public API showed: `cin` / `cout` = peers with an inbound /
+   outbound connection according to the node's own ConnectionEstablished / ConnectionClosed events *)
+Fixpoint e2e_ok (mi mo : option N) (cin cout : list N) (ops : list (N * N)) (obs : list (N * N)) : bool :=
+  match ops, obs with
+  | [], [] => true
+  | (k, p) :: ops', (a, b) :: obs' =>
+      let connected := mem p cin || mem p cout in
+      match k with
+      | 0 =>
+          (* never above the maximum; below it a new peer gets in; a turned-away remote sees its
+             connection go (closed, or its dial fails) *)
+          (if a =? 1 then strictly_under mi (len cin) && (b =? 1)
+           else (negb (strictly_under mi (len cin)) || connected) && ((b =? 2) || (b =? 3))) &&
+          e2e_ok mi mo (if a =? 1 then p :: cin else cin) cout ops' obs'
+      | 1 =>
+          (* ConnectionLimit exactly when the outbound connections have reached the maximum *)
+          (if connected then true
+           else if strictly_under mo (len cout) then (a =? 0) && (b =? 1) else (a =? 1) && (b =? 0)) &&
+          e2e_ok mi mo cin (if b =? 1 then p :: cout else cout) ops' obs'
+      | _ =>
+          Bool.eqb (a =? 1) connected &&
+          e2e_ok mi mo (set_remove p cin) (set_remove p cout) ops' obs'
+      end
+  | _, _ => false
+  end.
+
+Definition prop_ok_e2e (body trace : list N) : bool :=
+  match decode_e2e body with
+  | Some (mi, mo, ops) =>
+      match trace with
+      | 1 :: rest =>
+          match pall (prep (length ops) (let* a := pN in let* b := pN in pret (a, b))) rest with
+          | Some obs => e2e_ok (dec_opt mi) (dec_opt mo) [] [] ops obs
+          | None => false
+          end
+      | _ => false
+      end
+  | None => match trace with [0] => true | _ => false end
+  end.
+
+(* ======================= dispatch ======================= *)
+Definition run_case (l : list N) : list N :=
+  match l with
+  | t :: body =>
+      if t =? TAG_LIMITS then run_limits body
+      else if t =? TAG_PEER then run_peer body
+      else if t =? TAG_WRAPPED then run_wrapped body
+      else if t =? TAG_SOCK then run_sock body
+      else if t =? TAG_E2E then run_e2e body
+      else V.Mgr.Glue.run_case l
+  | [] => V.Mgr.Glue.run_case l
+  end.
+
+Definition prop_ok (case trace : list N) : bool :=
+  match case with
+  | t :: body =>
+      if t =? TAG_LIMITS then prop_ok_limits body trace
+      else if t =? TAG_PEER then prop_ok_peer body trace
+      else if t =? TAG_WRAPPED then prop_ok_wrapped body trace
+      else if t =? TAG_SOCK then prop_ok_sock body trace
+      else if t =? TAG_E2E then prop_ok_e2e body trace
+      else prop_ok_C06 case trace
+  | [] => prop_ok_C06 case trace
+  end.
+
 Definition known_class (case trace : list N) : N := 0%N.
